@@ -39,7 +39,10 @@ ParamSets ==
   \cup {P("cazacu2004ortho", <<2>> \o CazA \o CazB, 4)}
   \cup {P("mohrcoulomb", <<2, 0, 50, 0>>, 2),                                     \* c = 1, phi = 0, lodeT = 25 deg
         P("mohrcoulomb", <<6, 60, 50, 1>>, 2),                                    \* c = 3, phi = 30, lodeT = 25, a = 1/2
-        P("mohrcoulomb", <<0, 40, 58, 0>>, 2)}                                    \* homogeneous: c = 0, a = 0, phi = 20, lodeT = 29
+        P("mohrcoulomb", <<0, 40, 58, 0>>, 2),                                    \* homogeneous: c = 0, a = 0, phi = 20, lodeT = 29
+        \* small transition angles: most lattice stresses are then in the rounded (Abbo-Sloan) branch |lode| >= lodeT
+        P("mohrcoulomb", <<6, 60, 20, 1>>, 2),                                    \* c = 3, phi = 30, lodeT = 10, a = 1/2
+        P("mohrcoulomb", <<0, 40, 30, 0>>, 2)}                                    \* homogeneous: c = 0, a = 0, phi = 20, lodeT = 15
   \cup {PF("gtn", <<1, 4, 24, 16, 36>>, 16, f[1], f[2]) : f \in {<<0, 1>>, <<1, 64>>, <<1, 32>>, <<1, 8>>}}  \* fc 1/16 fr 1/4 q 3/2 1 9/4
   \cup {PF("gtn", <<1, 4, 32, 16, 48>>, 16, 1, 32)}                                                          \* q1 = 2, q3 = 3
   \cup {PF("rtb", <<3, 2>>, 2, f[1], f[2]) : f \in {<<0, 1>>, <<1, 8>>, <<1, 16>>}}                          \* DR = 3/2, qR = 1
